@@ -125,6 +125,9 @@ def gen_history(rng, kind):
             if kind in ('cdf', 'quantile', 'median') and hist and rng.random() < 0.25:
                 a = a.reshape((1,) + tuple(shape))      # same data as a one-row block: broadcasts, and stays the caller's (1, …) array
             hist.append(a)
+    if rng.random() < 0.2:
+        # frames as a FITS or network reader delivers them: big-endian. Same numbers; the caller's bytes and dtype are the caller's
+        hist = [h.astype('>f8') if isinstance(h, np.ndarray) else h for h in hist]
     return hist
 
 
